@@ -388,6 +388,56 @@ func (o *OracleC05) AfterCall(n *Node, st *Step) {
 			}
 		}
 	}
+	// Early (pre)commits are taken into account: a (pre)commit of the new height that sat in the
+	// future-message cache before the Reset, sent by an honest validator in a view whose
+	// primary is honest (so it verifies against the one proposal of that view), is either
+	// still cached afterwards (its view lies ahead) or sits in the sender's slot of the table.
+	if st.Op == OpReset && o.preCache != nil && !d.BlockSent() && !n.accepted && s.sc.VerdictPM == 0 {
+		post := map[string]bool{}
+		for _, e := range d.VerifState().Cache {
+			post[e.Hash] = true
+		}
+		honestIdx := func(h uint32, idx int) bool {
+			for _, m := range s.nodes {
+				if m.kind == FHonest && m.ident < s.sc.NIdent && s.sc.IndexAt(h, m.ident) == idx {
+					return true
+				}
+			}
+			return false
+		}
+		for _, e := range o.preCache {
+			if e.Height != d.BlockIndex || post[e.Hash] || int(e.Index) >= len(d.Validators) || (e.Kind != "commit" && e.Kind != "preCommit") {
+				continue
+			}
+			if e.Kind == "preCommit" && !s.sc.amevAt(e.Height) {
+				continue
+			}
+			if !honestIdx(e.Height, int(e.Index)) || !honestIdx(e.Height, primaryOf(e.Height, e.View, nv)) {
+				continue
+			}
+			authentic := false
+			for _, a := range s.authentic {
+				if a.H == e.Height && a.Idx == e.Index && a.V == e.View && a.Hash().String() == e.Hash {
+					authentic = true
+					break
+				}
+			}
+			if !authentic {
+				continue
+			}
+			var slot dbft.ConsensusPayload[Hash]
+			if e.Kind == "commit" {
+				slot = d.CommitPayloads[e.Index]
+			} else {
+				slot = d.PreCommitPayloads[e.Index]
+			}
+			if slot == nil {
+				o.viol(n, "cached_vote_dropped_at_reset", "height %d (now view %d): the %s of validator %d for view %d was received early and cached; after the Reset it is neither in the cache nor in the table", d.BlockIndex, d.ViewNumber, e.Kind, e.Index, e.View)
+				return
+			}
+			s.note("cached_vote_replayed_at_reset")
+		}
+	}
 	// ... and it shortens the wait by no more than the time this incarnation has spent at the
 	// previous height plus the longest round trip it can have measured: nothing else from
 	// earlier heights (or from before a restart) may eat into the timer.
